@@ -10,7 +10,8 @@ typedef std::vector<uint8_t> bytes;
 
 extern "C" void leg_constants(uint8_t out[4]);
 bytes leg_encode(const bytes &p, size_t outcap);
-void leg_feed(const bytes &stream, unsigned cap, std::string &sts, std::vector<bytes> &packets, std::vector<bytes> &rawlines);
+void leg_feed(const bytes &stream, unsigned cap, std::string &sts, std::vector<bytes> &packets, std::vector<bytes> &rawlines,
+              size_t *maxsize = nullptr);
 
 struct alphabet
 {
@@ -125,10 +126,11 @@ static inline trace feed_stream(const std::string &codec, unsigned cap, const by
     if (!codec_ctx(codec, ctx))
     {
         std::vector<bytes> raw;
-        leg_feed(stream, cap, t.sts, t.packets, raw);
+        leg_feed(stream, cap, t.sts, t.packets, raw, maxsize);
         return t;
     }
-    exact_buf buf(cap);
+    // capacity 0: a zero-length region at the very end of a heap block (hv::exact_buf(0) would own 1 byte)
+    exact_buf buf(cap, cap ? 0 : 16);
     gstuff_autorecv r(ctx);
     r.init(buf.p, (int)cap);
     for (uint8_t b : stream)
